@@ -18,6 +18,16 @@ from common import Run, Toks, corpus, fmt, guarded, main_guard
 
 PID = "C19"
 START = datetime(2021, 3, 30, 16, 0, 0)
+
+
+def jd_at(c, k):
+    """the Julian date of step k as the database holds it: converted from the civil time stamp ("datetime"), or as a running scenario writes it -
+    the clock's start date plus the elapsed seconds ("clock"); the two differ in the last bit at about a third of the minutes of this start"""
+    from resonaate.physics.time.stardate import ScenarioTime, datetimeToJulianDate
+
+    if c.get("jd_style") == "clock":
+        return float(ScenarioTime(60.0 * k).convertToJulianDate(datetimeToJulianDate(START)))
+    return float(datetimeToJulianDate(START + timedelta(seconds=60 * k)))
 NULL = logging.getLogger("verif-null")
 
 
@@ -46,7 +56,7 @@ def cases(run: Run):
             else:
                 present = sorted(a for a in set(imported) | set(db_agents) if rng.random() < 0.8)
             rows[k] = present
-        out.append({"op": "ephem", "imported": imported, "rows": rows, "steps": steps, "kind": kind})
+        out.append({"op": "ephem", "jd_style": rng.choice(["datetime", "clock", "clock"]), "imported": imported, "rows": rows, "steps": steps, "kind": kind})
     for _ in range(run.n(24, 200)):
         tg = [10001, 10002][: rng.randint(1, 2)]
         sn = [60001, 60002][: rng.randint(1, 2)]
@@ -59,7 +69,7 @@ def cases(run: Run):
         gap = None
         if imported and rng.random() < 0.5:
             gap = [rng.choice(imported), rng.randint(1, steps)]
-        out.append({"op": "mixed", "targets": tg, "sensors": sn, "realtime": {str(a): rt[a] for a in rt}, "steps": steps, "gap": gap})
+        out.append({"op": "mixed", "jd_style": rng.choice(["datetime", "clock", "clock"]), "targets": tg, "sensors": sn, "realtime": {str(a): rt[a] for a in rt}, "steps": steps, "gap": gap})
     for _ in range(run.n(40, 400)):
         n = rng.randint(0, 8)
         obs = []
@@ -75,7 +85,7 @@ def cases(run: Run):
                 pos = [round(rng.uniform(-7000, 7000), 3) for _ in range(3)]
                 tgt = rng.choice([10001, 10002, 10003])
             obs.append({"id": i + 1, "pos": pos, "tgt": tgt, "sensor": rng.choice([60001, 60002]), "epoch": rng.choice([1, 1, 2])})
-        out.append({"op": "obs", "obs": obs})
+        out.append({"op": "obs", "jd_style": rng.choice(["datetime", "clock", "clock"]), "load_epoch": rng.choice([1, 2, 2]), "obs": obs})
     return out
 
 
@@ -100,11 +110,11 @@ def build_ephem_db(path, c):
     objs = [AgentModel(unique_id=a, name=f"a{a}") for a in agents]
     for k in range(0, c["steps"] + 1):
         t = START + timedelta(seconds=60 * k)
-        objs.append(Epoch(julian_date=float(datetimeToJulianDate(t)), timestampISO=t.isoformat(timespec="microseconds")))
+        objs.append(Epoch(julian_date=jd_at(c, k), timestampISO=t.isoformat(timespec="microseconds")))
     for k, present in c["rows"].items():
         t = START + timedelta(seconds=60 * int(k))
         for a in present:
-            objs.append(TruthEphemeris.fromECIVector(julian_date=float(datetimeToJulianDate(t)), agent_id=a, eci=state_of(a, int(k))))
+            objs.append(TruthEphemeris.fromECIVector(julian_date=jd_at(c, int(k)), agent_id=a, eci=state_of(a, int(k))))
     db._insertData(*objs)
     db.resetData(()) if False else None
     return db
@@ -173,7 +183,7 @@ def impl_obs(c, tmp):
     ep = {}
     for k in (1, 2):
         t = START + timedelta(seconds=60 * k)
-        ep[k] = float(datetimeToJulianDate(t))
+        ep[k] = jd_at(c, k)
         objs.append(Epoch(julian_date=ep[k], timestampISO=t.isoformat(timespec="microseconds")))
     meas = Measurement.fromMeasurementLabels(["azimuth_rad", "elevation_rad"], np.diag([1e-8, 1e-8]))
     for o in c["obs"]:
@@ -202,7 +212,7 @@ def impl_obs(c, tmp):
     old_ray = ce.ray
     ce.ray = SimpleNamespace(get=lambda ref: ref)
     try:
-        got = CentralizedTaskingEngine.loadImportedObservations(stub, START + timedelta(seconds=60))
+        got = CentralizedTaskingEngine.loadImportedObservations(stub, START + timedelta(seconds=60 * c.get("load_epoch", 1)))
     finally:
         ce.ray = old_ray
     for ob in got:
@@ -284,7 +294,7 @@ def model_lines(c):
             lines.append(("STEP", k, rows))
         return lines
     key = lambda o: (int(o["pos"][0] * 1000000), int(o["pos"][1] * 1000000), int(o["pos"][2] * 1000000), o["tgt"])
-    obs = [o for o in c["obs"] if o["epoch"] == 1]
+    obs = [o for o in c["obs"] if o["epoch"] == c.get("load_epoch", 1)]
     return ["imp.dedup " + f"{len(obs)} " + " ".join(f"{o['id']} {key(o)[0]} {key(o)[1]} {key(o)[2]} {key(o)[3]}" for o in obs)]
 
 
@@ -369,10 +379,10 @@ def run_cases(run: Run, cs):
                     run.disagree("obs", c, r["ids"], want)
             # oracle: every stored (position, target) key of the epoch is represented exactly once, nothing from other epochs
             key = lambda o: (int(o["pos"][0] * 1000000), int(o["pos"][1] * 1000000), int(o["pos"][2] * 1000000), o["tgt"])
-            stored = [o for o in c["obs"] if o["epoch"] == 1]
+            stored = [o for o in c["obs"] if o["epoch"] == c.get("load_epoch", 1)]
             byid = {o["id"]: o for o in c["obs"]}
             keys_out = [key(byid[x]) for x in r["ids"] if x in byid]
-            if any(x not in byid or byid[x]["epoch"] != 1 for x in r["ids"]):
+            if any(x not in byid or byid[x]["epoch"] != c.get("load_epoch", 1) for x in r["ids"]):
                 fails.append(("obs:foreign", f"observations {r['ids']} include one not stored for the epoch"))
             if sorted(set(keys_out)) != sorted(set(key(o) for o in stored)) or len(keys_out) != len(set(keys_out)):
                 fails.append(("obs:lost-or-duplicated", f"stored {[(o['id'], o['tgt']) for o in stored]} -> loaded ids {r['ids']}"))
